@@ -81,10 +81,16 @@ OBJS = {'A': ObjA(), 'B': ObjB()}
 OBJ_NAME = {id(v): k for k, v in OBJS.items()}
 
 
-@runtime_checkable
-class I1(Protocol):
-    def foo(self) -> None:
-        ...
+def _declare_locally():
+    """an interface declared in a local scope: its __qualname__ ('_declare_locally.<locals>.I1') differs from its __name__"""
+    @runtime_checkable
+    class I1(Protocol):
+        def foo(self) -> None:
+            ...
+    return I1
+
+
+I1 = _declare_locally()
 
 
 @runtime_checkable
@@ -97,6 +103,7 @@ IFACES = {'I1': I1, 'I2': I2, 'CanBeInvoked': env.tapescript.CanBeInvoked, 'CanC
 SATISFIES = {'A': {'I2', 'CanBeInvoked'}, 'B': {'CanCheckTransfer'}}
 SCOPES = ('signature_extensions', 'check_template')
 ALIAS_TARGET = {'VERIFALIASA': 'OP_TRUE', 'VERIFALIASB': 'OP_FALSE'}
+LOOKAHEAD_PRE = ('OP_PUSH1 x0102', 'OP_PUSH2 x0102', 'push1 d1', 'OP_PUSH d7', 'OP_PUSH1 d2 x0102', 'OP_DIV_INT d2', '@v')
 
 # ---------------------------------------------------------------- snapshot of all process-global mutable state
 MODULES = [env.functions, env.parsing, env.tools, env.classes, env.tapescript.AMHL if hasattr(env.tapescript, 'AMHL') else None]
@@ -444,6 +451,18 @@ def probes(ctx, a, hist, where):
         if b != want:
             ctx.violation({**sig, 'clause': 'alias compiles iff active', 'registry': 'aliases'},
                           f'history {hist}: {al} active={al in a["aliases"]}, compiled {b}')
+        # ... right after every statement form whose parsing looks ahead at the next symbol
+        if want is not None:
+            for pre in LOOKAHEAD_PRE:
+                try:
+                    b3 = P_.compile_script('%s %s' % (pre, al.lower()))
+                    w3 = P_.compile_script(pre) + want
+                except BaseException as e:
+                    b3, w3 = repr(e), None
+                ctx.ran()
+                if b3 != w3:
+                    ctx.violation({**sig, 'clause': 'alias compiles iff active', 'registry': 'aliases', 'after': pre.split(' ')[0]},
+                                  f'history {hist}: {al} after {pre!r}: compiled {b3}')
         # ... in every block body as well
         for kind, src, pre in (('DEF', 'def 0 { %s }', b'\x29\x00\x00\x01'), ('IF', 'if { %s }', b'\x2b\x00\x01'),
                                ('LOOP', 'loop { %s }', b'\x45\x00\x01'), ('TRY', 'try { %s }', b'\x3d\x00\x01')):
